@@ -71,13 +71,13 @@ CLAIMS = {
              "MODE line onto the previous dump and comparing with the new dump.",
         design_ref="5 (C08)"),
     "C11": dict(
-        technique="Coq proof (characterisation of OPER, no-grant frame of the user-mode interpreter by induction over mode strings and groups, exact results of KILL/DIE/SQUIT/WALLOPS/STATS per privilege, delivery of pending KILLs) + privilege-level sweep and an operator-status oracle on the real server",
-        text="Theorems (props/C11.v): OPER confers operator status iff the name is configured, the password verifies and the mask matches, touching only the own record; MODE on the own nick with "
-             "any letters/signs/groups changes only the own mode field and never turns an operator flag on; MODE on a foreign nick changes nothing; KILL/DIE/SQUIT/WALLOPS/STATS from an "
-             "unprivileged user give the privilege error and the identical state; permitted KILL marks exactly the named user and the delivery closes exactly the owners of marked users, "
-             "everyone else surviving unchanged; WALLOPS reaches exactly the +w users. That no OTHER handler writes a mode field is checked by state-dump comparison and the oracle (L2).",
-        design_ref="5 (C11)",
-        note="Partial at proof level: the global 'no other command sequence confers operator status' is not a theorem; it is checked on traces."),
+        technique="Coq proof (global step theorem: operator status only through an accepted OPER of the connection itself or the default modes at registration, by a modes/owner frame through all 41 commands, teardown and KILL delivery; characterisation of OPER; no-grant frame of the user-mode interpreter; exact results of KILL/DIE/SQUIT/WALLOPS/STATS per privilege) + privilege-level sweep and an operator-status oracle on the real server",
+        text="Theorems (props/C11.v): C11_operator_only_from_oper - for every step of every connection from a world satisfying the invariant, a user who is an operator afterwards was one before on the same "
+             "connection, or belongs to the acting connection whose line was an OPER naming a configured operator with the verifying password from a matching source, or has just registered under default "
+             "modes containing +o; no other of the 40 commands creates an operator or local operator (C11_no_other_command_confers); OPER confers iff configured name, password, mask; MODE on the own nick "
+             "never turns an operator flag on and changes only the own mode field; MODE on a foreign nick changes nothing; KILL/DIE/SQUIT/WALLOPS/STATS from an unprivileged user give the privilege error and "
+             "the identical state; permitted KILL marks exactly the named user and the delivery closes exactly the owners of marked users; WALLOPS reaches exactly the +w users.",
+        design_ref="5 (C11)"),
     "C12": dict(
         technique="Coq proof of the hiding statements that hold (LIST both forms, NAMES contribution, WHO by channel name) and a machine-checked refutation for NAMES with an explicit name + two-world differential check on the real server",
         text="Theorems (props/C12.v): LIST (explicit and bare) answers an outsider exactly as in the world without the secret channel; NAMES contributes no line for a secret channel to a non-member; "
